@@ -4,7 +4,7 @@ min-cut, maximum bipartite matching = minimum vertex cover); the applications ar
 generated small graphs with every selectable algorithm variant and 1-8 threads; what they print is parsed and TLC judges every
 result (TraceApps.tla).  The distributed bfs / sssp / cc / k-core applications run under mpirun (1-4 hosts x partition policies x Sync/Async)
 and their complete per-node output is judged the same way.  PageRank (pull and push variants) is compared with a fixed-point
-iteration in TLA+ (six decimals) within 0.02 + 2% per node."""
+iteration in TLA+ (six decimals) within 0.07 + 2% per node."""
 import os, re, json, random, shutil, subprocess, concurrent.futures as cf
 from vlib.common import *
 from vlib import tv, grfile
@@ -389,7 +389,7 @@ def run(ev, vd):
         vd.violation(sig, "%s (%s) on a %d-node graph: %s" % (rec.get("app"), rec.get("variant"), gr["n"], lines[g][:400]), dict(record=rec, graph=gr))
     ev.assumptions += [
         "results are observed through what the applications print (one reported node per BFS/SSSP run, counts, weights, cardinalities); the independent set itself is not printed, so only 'some maximal independent set has this size' plus the application's own verification is decided",
-        "PageRank is judged against an integer fixed-point iteration (six decimals) with a slack of 0.02 + 2% per node: gross errors (wrong degrees, dropped or doubled contributions) are decided, accuracy within the applications' own tolerance is not",
+        "PageRank is judged against an integer fixed-point iteration (six decimals) with a slack of 0.07 + 2% per node: gross errors (wrong degrees, dropped or doubled contributions) are decided, accuracy within the applications' own tolerance is not",
         "distributed bfs/sssp/cc/k-core (push and pull) run under mpirun on 1-4 hosts with several partition policies, Sync and Async; distributed pagerank, betweenness centrality, triangle counting and the CPU applications clustering, k-truss, gmetis, matrix completion, points-to are out of scope",
         "graphs are small (<= 9 nodes): the oracle is evaluated by TLC; thread schedules are sampled by repeated real runs"]
     ev.cov["engines"] = ["free", "tv"]
